@@ -196,7 +196,7 @@ Lemma never_escapes_partial_l : forall en, In en entries -> ~ In (e_name en) exe
   forall o, admissible en o ->
   match o with
   | Returns v => run_entry en o = (Returned v, [])
-  | Throws e => exists c z, fst (run_entry en o) = ReturnedCode c /\ In (E_notify c) (snd (run_entry en o))
+  | Throws e => exists c z, error_result (fst (run_entry en o)) c /\ In (E_notify c) (snd (run_entry en o))
                             /\ value_of enum_error_code c = Some z /\ (z < 0)%Z
   end.
 Proof.
@@ -210,11 +210,23 @@ Qed.
 
 (* Per-entry form of chain_documented, decided by computation for ALL entries and ALL classes
    (1986 x 19 + foreign): an entry whose body throws an exception of class c returns documented_code c. *)
+(* the enumerator a clause REPORTS: the one it returns, or -- for a pointer entry returning null -- the one it
+   passes to the error handler *)
+Definition reported (o : option clause) : option ecode :=
+  match o with
+  | Some cl => match c_ret cl with
+               | Code c => Some c
+               | NullPtr => match filter (fun a => match a with Notify (Code _) => true | _ => false end) (c_actions cl) with
+                            | [Notify (Code c)] => Some c | _ => None end
+               | _ => None end
+  | None => None
+  end.
+
 Definition entry_documented (en : entry) : bool :=
   if e_has_try en then
-    forallb (fun c => match code_of (handles (e_chain en) (of_class c)) with
+    forallb (fun c => match reported (handles (e_chain en) (of_class c)) with
                       | Some k => ecode_eqb k (documented_code c) | None => false end) all_cls
-    && match code_of (handles (e_chain en) foreign) with Some ERROR_UNEXPECTED_ERROR => true | _ => false end
+    && match reported (handles (e_chain en) foreign) with Some ERROR_UNEXPECTED_ERROR => true | _ => false end
     && well_ordered (e_chain en) && forallb resets_before_notify (e_chain en)
   else true.
 
@@ -222,15 +234,15 @@ Lemma all_entries_documented : forallb entry_documented entries = true.
 Proof. vm_compute. reflexivity. Qed.
 
 Lemma entry_returns_documented : forall en, In en entries -> e_has_try en = true -> forall c,
-  exists cl, handles (e_chain en) (of_class c) = Some cl /\ c_ret cl = Code (documented_code c).
+  exists cl, handles (e_chain en) (of_class c) = Some cl /\ reported (Some cl) = Some (documented_code c).
 Proof.
   intros en Hin HT c. pose proof all_entries_documented as A. rewrite forallb_forall in A.
   specialize (A en Hin). unfold entry_documented in A. rewrite HT in A.
   apply andb_prop in A as [A _]. apply andb_prop in A as [A _]. apply andb_prop in A as [A _].
   rewrite forallb_forall in A. specialize (A c (all_cls_complete c)).
-  destruct (handles (e_chain en) (of_class c)) as [cl|]; [|discriminate]. cbn in A.
+  destruct (handles (e_chain en) (of_class c)) as [cl|]; [|discriminate].
   exists cl; split; [reflexivity|].
-  destruct (c_ret cl) as [k|]; [|discriminate]. apply ecode_eqb_eq in A. now subst.
+  destruct (reported (Some cl)) as [k|]; [|discriminate]. apply ecode_eqb_eq in A. now subst.
 Qed.
 
 (* ---- output handles: address of a temporary stored through an output parameter ------------------- *)
@@ -268,3 +280,23 @@ Lemma timeout_registrations_timeout_class :
           timeout_registrations = true
   /\ forallb (fun n => str_mem n (map fst timeout_registrations)) ["ppl_set_timeout"; "ppl_set_deterministic_timeout"] = true.
 Proof. split; vm_compute; reflexivity. Qed.
+
+(* after /repo 5150800 the full statement holds: each setter hands the watchdog an object of ITS OWN class ... *)
+Lemma timeout_registration_holds : timeout_registration_full.
+Proof. unfold timeout_registration_full. vm_compute. reflexivity. Qed.
+
+(* ... so the handler that runs on expiry disarms the watchdog that expired, before notifying *)
+Definition resets_own_watchdog (p : string * ctype) : bool :=
+  match snd p with
+  | CT_class c =>
+      forallb (fun ch => match handles ch (of_class c) with
+                         | Some cl => match c_actions cl with
+                                      | ResetDetTimeout :: Notify (Code TIMEOUT_EXCEPTION) :: _ => String.eqb (fst p) "ppl_set_deterministic_timeout"
+                                      | ResetTimeout :: Notify (Code TIMEOUT_EXCEPTION) :: _ => String.eqb (fst p) "ppl_set_timeout"
+                                      | _ => false end
+                         | None => false end) nonempty_chains
+  | _ => false
+  end.
+
+Lemma registered_handlers_reset_own_watchdog : forallb resets_own_watchdog timeout_registrations = true.
+Proof. vm_compute. reflexivity. Qed.
